@@ -16,7 +16,7 @@ from vlib.runner import np_rng
 
 ID = "C10"
 RULE = ("one case = one model (three state types, n=1..4, parameters restricted so that every model Born probability in "
-        "every used basis is >= 1e-12) with random normalised complex targets (pure: generic / real / sparse; mixed: full "
+        "every used basis is >= 1e-10; models are redrawn, not rescaled, to get there) with random normalised complex targets (pure: generic / real / sparse; mixed: full "
         "rank, rank-1, rank-deficient), basis lists with repeats and all-Z, sample multisets with per-row bases. "
         "Non-trivial: all parameters non-zero and at least one basis with Y; distinct by sha256(parameters, targets, bases).")
 REQUIRED = ["states_used_before_with_other_parameters", "fidelity_values_compared", "kl_values_compared", "nll_values_compared", "type_checks", "self_fidelity_checks",
@@ -99,15 +99,19 @@ def run_case(case, ctx):
         blist.append("Z" * n)
     blist_u = list(dict.fromkeys(blist))
     # model inside the metric range: every Born probability in every used basis >= 1e-12
-    am, ph = gen.draw_model(rng, kind, n, nh, na, scales=gen.SCALES_MODERATE)
-    for _ in range(30):
+    ok_range = False
+    for _ in range(40):
+        # redraw (scaling parameters down would push a pure state towards |+...+>, whose X-basis probabilities vanish)
+        am, ph = gen.draw_model(rng, kind, n, nh, na, scales=gen.SCALES_MODERATE)
         kd, dense = R.state_dense(kind, am, ph, n)
         Zr = float(np.real(np.trace(R.as_rho(kd, dense))))
         pmin = min(float(np.min(R.born(kd, dense, b)[0])) / Zr for b in set(blist) | {"Z" * n})
-        if pmin >= 1e-12:
+        if pmin >= 1e-10:
+            ok_range = True
             break
-        am = {k: v * 0.7 for k, v in am.items()}
-        ph = None if ph is None else {k: v * 0.7 for k, v in ph.items()}
+    if not ok_range:
+        ctx.count("cases_skipped_outside_metric_range")
+        return
     if case["rep"] % 2:
         def warm(s_):
             sp_ = s_.generate_hilbert_space()
